@@ -563,7 +563,7 @@ func (cpu *CPU) cmdRead16() uint16 {
 		m_Absolute_Y,
 		m_DP_Indirect_Y,
 		m_Stack_Relative_Indirect_Y:
-		ll := cpu.Bus.EaRead(cpu.StepInfo.EA) // todo - zastapic to jakos?
+		ll := cpu.Bus.EaRead(cpu.StepInfo.EA)                    // todo - zastapic to jakos?
 		hh := cpu.Bus.EaRead((cpu.StepInfo.EA + 1) & 0x00ffffff) // wrap on 24bits
 		return uint16(hh)<<8 | uint16(ll)
 
@@ -1130,6 +1130,40 @@ func (cpu *CPU) irq() {
  * ====================================================================
  */
 
+// decimalAdd adds two packed-BCD numbers of the given number of nibbles plus a
+// carry, one nibble at a time like the ALU does: a nibble sum above 9 is
+// adjusted by 6 and carries into the next nibble.
+func decimalAdd(a, d, c uint32, nibbles uint) (sum, carry uint32) {
+	for n := uint(0); n < nibbles; n++ {
+		r := (a>>(4*n))&0xF + (d>>(4*n))&0xF + c
+		if r > 0x9 {
+			r += 0x6
+		}
+		c = 0
+		if r > 0xF {
+			c = 1
+		}
+		sum |= (r & 0xF) << (4 * n)
+	}
+	return sum, c
+}
+
+// decimalSub subtracts packed-BCD numbers as a + ^d + carry (d is passed
+// already complemented): a nibble that produced no carry is adjusted by -6.
+func decimalSub(a, d, c uint32, nibbles uint) (sum, carry uint32) {
+	for n := uint(0); n < nibbles; n++ {
+		r := (a>>(4*n))&0xF + (d>>(4*n))&0xF + c
+		c = 0
+		if r > 0xF {
+			c = 1
+		} else {
+			r -= 0x6
+		}
+		sum |= (r & 0xF) << (4 * n)
+	}
+	return sum, c
+}
+
 // ADC - Add with Carry
 // I'm not sure what I'm doing ;)
 func op_adc(cpu *CPU) {
@@ -1140,12 +1174,8 @@ func op_adc(cpu *CPU) {
 		sum := a + d + c
 
 		if cpu.D == 1 {
-			if (sum & 0x0F) > 0x09 {
-				sum = sum + 0x06
-			}
-			if (sum & 0xF0) > 0x90 {
-				sum = sum + 0x60
-			}
+			s, cy := decimalAdd(uint32(a), uint32(d), uint32(c), 2)
+			sum = uint16(s) | uint16(cy)<<8
 		}
 
 		if sum > 0xFF {
@@ -1170,18 +1200,8 @@ func op_adc(cpu *CPU) {
 		sum := a + d + c
 
 		if cpu.D == 1 {
-			if (sum & 0x000F) > 0x0009 {
-				sum = sum + 0x0006
-			}
-			if (sum & 0x00F0) > 0x0090 {
-				sum = sum + 0x0060
-			}
-			if (sum & 0x0F00) > 0x0900 {
-				sum = sum + 0x0600
-			}
-			if (sum & 0xF000) > 0x9000 {
-				sum = sum + 0x6000
-			}
+			s, cy := decimalAdd(a, d, c, 4)
+			sum = s | cy<<16
 		}
 
 		if sum > 0xFFFF {
@@ -1816,12 +1836,8 @@ func op_sbc(cpu *CPU) {
 		sum := a + d + c
 
 		if cpu.D == 1 {
-			if (sum & 0x0F) > 0x09 {
-				sum = sum + 0x06
-			}
-			if (sum & 0xF0) > 0x90 {
-				sum = sum + 0x60
-			}
+			s, cy := decimalSub(uint32(a), uint32(d), uint32(c), 2)
+			sum = uint16(s) | uint16(cy)<<8
 		}
 
 		if sum > 0xFF {
@@ -1846,18 +1862,8 @@ func op_sbc(cpu *CPU) {
 		sum := a + d + c
 
 		if cpu.D == 1 {
-			if (sum & 0x000F) > 0x0009 {
-				sum = sum + 0x0006
-			}
-			if (sum & 0x00F0) > 0x0090 {
-				sum = sum + 0x0060
-			}
-			if (sum & 0x0F00) > 0x0900 {
-				sum = sum + 0x0600
-			}
-			if (sum & 0xF000) > 0x9000 {
-				sum = sum + 0x6000
-			}
+			s, cy := decimalSub(a, d, c, 4)
+			sum = s | cy<<16
 		}
 
 		if sum > 0xFFFF {
